@@ -158,3 +158,107 @@ def replay_file(ctx, pool_binary, path):
     if not r["ok"]:
         vlib.report_violation(ctx, dict(kind="store-replay", steps=sc["steps"], detail=r.get("viol"), scenario=strip(sc)),
                               finding_ids=list(sc.get("taint") or []))
+
+
+# ---------------------------------------------------------------- code -> specification: random long runs
+
+TT_CFG = """CONSTANTS
+  LeafCap = %d
+  IntCap = %d
+  FixSplitTomb = TRUE
+INIT Init
+NEXT Next
+INVARIANT AllOK
+POSTCONDITION Done
+CHECK_DEADLOCK FALSE
+"""
+
+
+def random_runs(ctx, pool, cov, runs, judge_graphs=False):
+    """runs: list of dicts for harness/cmd/store mode=random (seed, n, caps, cache, pcrash, pflush, wal, maxrows, bias,
+    graphevery). Each run is recorded as an NDJSON trace and validated by TLC against AbsTrace.tla (MkdbAbs); page graphs
+    (if requested) are judged by TreeTrace.tla at the run's capacities."""
+    import os
+    from concurrent.futures import ThreadPoolExecutor
+    tdir = ctx.sub("random")
+    reqs = []
+    for i, r in enumerate(runs):
+        rr = dict(r)
+        rr["out"] = os.path.join(tdir, "trace-%d.ndjson" % i)
+        if judge_graphs or rr.get("graphevery"):
+            rr["graphout"] = os.path.join(tdir, "graphs-%d.ndjson" % i)
+        reqs.append(dict(mode="random", rand=rr, _i=i))
+    results = {}
+    pool.run_all(reqs, lambda q, r: results.__setitem__(q["_i"], r), chunk=1)
+    agg = cov.setdefault("random_runs", dict(runs=0, statements=0, events=0, recoveries=0, crash_in_log=0, crash_idle=0, flushes=0,
+                                             max_rows_in_a_table=0, max_tree_levels=0, graphs_judged_by_tlc=0, cache_full_discarded=0,
+                                             traces_accepted_by_tlc=0, tlc_states=0))
+
+    def validate(i):
+        r = results[i]
+        rq = reqs[i]["rand"]
+        if r.get("cachefull"):
+            return ("cachefull", i, None)
+        if not r["ok"]:
+            return ("viol", i, dict(detail=r.get("viol"), run=rq))
+        if r.get("diverged"):
+            return ("undecided", i, r["diverged"])
+        trace = open(rq["out"]).read()
+        outs = []
+        t = vlib.run_tlc(ctx, "AbsTrace", "AbsTrace.cfg", workers=1, timeout=1800, tag="r%d" % i, files={"trace.ndjson": trace},
+                         on_scn=lambda k, o: outs.append(o), xss="256m")
+        if t.status != "ok":
+            reached = outs[-1]["reached"] if outs else None
+            if reached is None:
+                return ("undecided", i, "AbsTrace: TLC failed\n" + "\n".join(t.out[-20:]))
+            lines = trace.splitlines()
+            evs = [json.loads(x) for x in lines[max(0, reached - 6):reached]]
+            for e in evs:
+                if isinstance(e.get("rows"), list) and len(e["rows"]) > 60:
+                    e["rows"] = e["rows"][:30] + ["...(%d)" % len(e["rows"])] + e["rows"][-30:]
+            return ("viol", i, dict(detail=["event %d of the recorded run is not a step MkdbAbs allows: %s" % (reached, json.dumps(evs[-1])[:300])],
+                                    events_before_and_at=evs, run=rq))
+        bad = None
+        ng = 0
+        if rq.get("graphout") and os.path.exists(rq["graphout"]):
+            gtxt = open(rq["graphout"]).read()
+            ng = gtxt.count("\n")
+            caps = rq.get("caps") or [9, 290]
+            g = vlib.run_tlc(ctx, "TreeTrace", "TreeTrace.cfg", cfg_text=TT_CFG % tuple(caps), workers=1, timeout=3000, tag="g%d" % i,
+                             files={"graphs.ndjson": gtxt}, xss="1g")
+            if g.status != "ok":
+                if g.violated != "AllOK":
+                    return ("undecided", i, "TreeTrace: TLC failed\n" + "\n".join(g.out[-20:]))
+                bad = "TreeOK (BTree.tla) is false for a page graph recorded during the run"
+        st = r.get("stats", {})
+        return ("ok" if not bad else "viol", i, dict(stats=st, states=t.distinct, graphs=ng, detail=[bad] if bad else None, run=rq))
+
+    with ThreadPoolExecutor(max_workers=min(len(reqs), vlib.NCPU)) as ex:
+        outs = list(ex.map(validate, range(len(reqs))))
+    for kind, i, info in outs:
+        if kind == "undecided":
+            raise vlib.Undecided("random run %d: %s" % (i, info))
+        if kind == "cachefull":
+            agg["cache_full_discarded"] += 1
+            continue
+        if kind == "viol" and not (info.get("stats")):
+            vlib.report_violation(ctx, dict(kind="random-run", **info), signature="random:" + (info["detail"] or [""])[0][:120])
+            continue
+        st = info["stats"]
+        agg["runs"] += 1
+        agg["statements"] += st.get("stmts", 0)
+        agg["events"] += st.get("events", 0)
+        agg["recoveries"] += st.get("recoveries", 0)
+        agg["crash_in_log"] += st.get("crash-in-log", 0)
+        agg["crash_idle"] += st.get("crash-idle", 0)
+        agg["flushes"] += st.get("flushes", 0)
+        agg["max_rows_in_a_table"] = max(agg["max_rows_in_a_table"], st.get("maxrows", 0))
+        agg["max_tree_levels"] = max(agg["max_tree_levels"], st.get("levels", 0))
+        agg["graphs_judged_by_tlc"] += info.get("graphs", 0)
+        agg["tlc_states"] += info.get("states", 0)
+        if kind == "viol":
+            vlib.report_violation(ctx, dict(kind="random-run-graph", detail=info["detail"], run=info["run"]), signature="random-graph")
+        else:
+            agg["traces_accepted_by_tlc"] += 1
+            cov["traces_validated_against_impl"] += 1
+    return agg
